@@ -30,7 +30,7 @@ T == Trace[l]
 \* lines that carry no model step of their own
 SkipLine ==
   /\ l <= Len(Trace)
-  /\ \/ T.ev \in {"InCall", "Propagate", "Commit", "End", "Out", "Corrupt", "Spawn", "Attend", "SendBytes", "Stale"}
+  /\ \/ T.ev \in {"InCall", "Propagate", "Commit", "End", "Out", "Corrupt", "Attend", "SendBytes", "Stale"}
      \/ (T.ev = "InRet" /\ T.ok)
      \/ (T.ev = "DoRet" /\ T.act = 2)
      \/ (T.ev = "DoRet" /\ T.id = 0 /\ T.act = 0)
@@ -39,7 +39,15 @@ SkipLine ==
 T_Own      == Ev_("Own") /\ rd + 1 = T.id /\ lines[T.id].cls # "R" /\ ReadIn /\ Consume
 T_Refused  == Ev_("InRet") /\ ~T.ok /\ rd + 1 = T.id /\ lines[T.id].cls = "R" /\ ReadIn /\ Consume
 T_DoRet    == /\ Ev_("DoRet") /\ T.act \in {0, 1} /\ ~(T.id = 0 /\ T.act = 0)
-              /\ \E p \in Procs : pr[p].pc = "act" /\ pr[p].ev = T.id /\ pr[p].act = T.act /\ DoAct(p)
+              /\ \E p \in Procs :
+                   \/ (pr[p].pc = "act" /\ Cur(p) = T.id /\ pr[p].act = T.act /\ ~(IsParent(T.id) /\ T.act = 0) /\ DoAct(p))
+                   \* the split action returns (break) only after Spawn pushed every child through
+                   \/ (pr[p].pc = "spawned" /\ pr[p].ev = T.id /\ T.act = 0 /\ T.res = "break" /\ SpawnDone(p))
+              /\ Consume
+\* the harness logs Spawn inside the split action's Do, right before processor.Spawn
+T_Spawn    == /\ Ev_("Spawn")
+              /\ \E p \in Procs : pr[p].pc = "act" /\ pr[p].kid = 0 /\ pr[p].ev = T.id /\ pr[p].act = 0 /\ IsParent(T.id)
+                                   /\ T.kids = Kids(T.id) /\ DoAct(p)
               /\ Consume
 T_SendCall == /\ Ev_("SendCall")
               /\ \E k \in Workers : wk[T.b][k].pc = "send" /\ wk[T.b][k].ids = T.ids /\ wk[T.b][k].seq = T.seq /\ SendCall(T.b, k)
@@ -64,7 +72,7 @@ T_BCommit  == /\ Ev_("BCommit")
 \* the next recorded run starts: the previous one must have been followed to its end (it was: we are at its last line + 1)
 T_Reset    == Ev_("Reset") /\ ResetWith(LinesOf(T)) /\ Consume
 
-Logged == T_Reset \/ T_Own \/ T_Refused \/ T_DoRet \/ T_SendCall \/ T_SendRet \/ T_GiveUp \/ T_Fail \/ T_BCommit
+Logged == T_Reset \/ T_Spawn \/ T_Own \/ T_Refused \/ T_DoRet \/ T_SendCall \/ T_SendRet \/ T_GiveUp \/ T_Fail \/ T_BCommit
 
 \* unlogged implementation steps
 Silent ==
